@@ -720,7 +720,19 @@ pub fn run_c14(rep: &mut Report, driver: &str, workers: usize, thorough: bool, s
 
 pub fn run_c16(rep: &mut Report, driver: &str, workers: usize, thorough: bool, seed: u64) {
     let mut rng = Rng::new(seed);
-    let trees = image_trees(&mut rng, thorough);
+    let mut trees = image_trees(&mut rng, thorough);
+    // every string of one character over the first 0x300 code points (all control characters), alone and as an operand
+    for u in 0u32..0x300 {
+        if let Some(c) = char::from_u32(u) {
+            trees.push(lit(Value::String(c.to_string())));
+            trees.push(mk_bin("contains", reff("a"), lit(Value::String(format!("x{}y", c)))));
+        }
+    }
+    for _ in 0..(if thorough { 20000 } else { 2000 }) {
+        let n = 1 + rng.below(4);
+        let sv: String = (0..n).map(|_| loop { if let Some(c) = char::from_u32((rng.next_u64() % 0x110000) as u32) { break c; } }).collect();
+        trees.push(lit(Value::String(sv)));
+    }
     let n = trees.len();
     let encs: Vec<String> = trees.iter().map(enc_expr).collect();
     let texts: Vec<String> = trees.iter().map(|e| e.to_string()).collect();
